@@ -445,9 +445,9 @@ tfpdeftests:
 |	tfpdeftests ',' tfpdeftest
 	{
 		$$ = append($$, $3)
-		if $<expr>3 != nil {
-			$<exprs>$ = append($<exprs>$, $<expr>3)
-		}
+		// keyword-only defaults stay parallel to the keyword-only
+		// arguments (as in CPython's ast): nil = no default
+		$<exprs>$ = append($<exprs>$, $<expr>3)
 	}
 
 tfpdeftests1:
@@ -538,9 +538,9 @@ vfpdeftests:
 |	vfpdeftests ',' vfpdeftest
 	{
 		$$ = append($$, $3)
-		if $<expr>3 != nil {
-			$<exprs>$ = append($<exprs>$, $<expr>3)
-		}
+		// keyword-only defaults stay parallel to the keyword-only
+		// arguments (as in CPython's ast): nil = no default
+		$<exprs>$ = append($<exprs>$, $<expr>3)
 	}
 
 vfpdeftests1:
